@@ -25,21 +25,28 @@ def replay(model, log, max_cycles=None):
     ins = [d.inputs[n] for n in model.in_names]
     outs = [d.observes[n] for n in model.obs_names]
     sim = Simulator(d.dut)
-    domains = []
-    for nm in model.clk_names:
-        dom = nm[:-4] if nm.endswith("_clk") else ("sync" if nm == "clk" else nm)
-        domains.append(dom)
-    if not domains: domains = ["sync"]
+    domains = list(model.clk_domains) or ["sync"]
+    P = 1e-6
     if len(domains) > 1:
-        raise MachineryError("multi-clock replay must use replay_multiclock")
-    sim.add_clock(1e-6, domain=domains[0])
+        if not model.clocks: raise MachineryError("multi-clock design without Design.clocks")
+        fast = [d_ for d_ in domains if model.clocks[d_][0] == 1]
+        if not fast: raise MachineryError("no domain with divider 1")
+        for d_ in domains:
+            div, ph = model.clocks[d_]
+            sim.add_clock(P * div, phase=P / 2 + ph * P, domain=d_)
+        domains = [fast[0]] + [d_ for d_ in domains if d_ != fast[0]]
+    else:
+        sim.add_clock(P, domain=domains[0])
     omasks = [(1 << len(o)) - 1 for o in outs]
     result = {"cycles": 0, "err": None}
 
     async def tb(ctx):
         prev = None
         n = 0
-        for vec, exp, _ in expand_log(log):
+        for vec, exp, mk in expand_log(log):
+            if model.clocks and mk is not None and mk != model._masks[n % model._lcm]:
+                result["err"] = f"cycle {n}: clock mask {mk} does not follow the declared dividers"
+                return
             if prev is None:
                 for s, v in zip(ins, vec): ctx.set(s, v)
             else:
